@@ -269,6 +269,133 @@ def check(ctx: Ctx) -> None:
     ctx.check(ok, "PLACEHOLDER", f"{FN}: another round runs iff some track still has a remainder", function=FN,
               construct="loop continuation flag is not tied to `a remainder exists`", message="", file=fi.file, node=loop)
 
+    # --- LOOPCTL: the flag that ends the rounds
+    flagn = None
+    t_ = loop.test
+    nots_ = 0
+    while isinstance(t_, ast.UnaryOp) and isinstance(t_.op, ast.Not):
+        nots_, t_ = nots_ + 1, t_.operand
+    if isinstance(t_, ast.Name) and nots_ >= 1:
+        flagn = t_.id
+        ctx.check(nots_ % 2 == 1, "LOOPCTL", f"{FN}: rounds continue while `{flagn}` is false", function=FN,
+                  construct="the round loop continues while the tracks ARE synchronised", message=short(loop.test), file=fi.file, node=loop)
+    if flagn is None:
+        ctx.undetermined("LOOPCTL", f"{FN}: round control", f"`while {short(loop.test)}` is not `while not <flag>`: idiom not judged")
+    else:
+        inits = [s_ for s_ in fi.node.body if s_.lineno < loop.lineno and isinstance(s_, ast.Assign) and isinstance(s_.targets[0], ast.Name) and s_.targets[0].id == flagn]
+        ctx.check(len(inits) == 1 and isinstance(inits[0].value, ast.Constant) and inits[0].value.value is False, "LOOPCTL",
+                  f"{FN}: `{flagn}` starts False, so the first round always runs", function=FN, construct="round flag does not start False",
+                  message=f"{[short(x) for x in inits]}: no bar would be produced at all", file=fi.file, node=inits[0] if inits else loop)
+        tops = [s_ for s_ in loop.body if isinstance(s_, ast.Assign) and isinstance(s_.targets[0], ast.Name) and s_.targets[0].id == flagn]
+        ctx.check(len(tops) == 1 and isinstance(tops[0].value, ast.Constant) and tops[0].value.value is True and tops[0].lineno < track_loop.lineno, "LOOPCTL",
+                  f"{FN}: each round first assumes it is the last (`{flagn} = True` before the tracks are visited)", function=FN,
+                  construct="round flag is not set before the tracks are visited", message=f"{[short(x) for x in tops]}: the loop would never end, or end one round late",
+                  file=fi.file, node=tops[0] if tops else loop)
+        inner = [s_ for s_ in ast.walk(track_loop) if isinstance(s_, ast.Assign) and isinstance(s_.targets[0], ast.Name) and s_.targets[0].id == flagn]
+        ctx.check(bool(inner) and all(isinstance(x.value, ast.Constant) and x.value.value is False for x in inner), "LOOPCTL",
+                  f"{FN}: a track with a remainder asks for another round", function=FN, construct="no track can ask for another round",
+                  message=f"{[short(x) for x in inner]}", file=fi.file, node=track_loop)
+
+    # --- SPLITCASE: what one split call can return -- [] / [piece] / [piece, remainder]
+    from ..astutil import path_conditions
+    sv = None
+    for s_ in track_loop.body:
+        if isinstance(s_, ast.Assign) and isinstance(s_.targets[0], ast.Name) and isinstance(s_.value, ast.Call) and call_method(s_.value)[1] == "split":
+            sv = s_.targets[0].id
+    if sv is None:
+        ctx.undetermined("SPLITCASE", f"{FN}: result of the per-track split", "not bound to a name: not judged")
+    else:
+        def lencase(t):
+            """-> set of list lengths (0, 1, 2 = two or more) for which `t` holds, or None."""
+            neg = False
+            while isinstance(t, ast.UnaryOp) and isinstance(t.op, ast.Not):
+                neg, t = not neg, t.operand
+            if not (isinstance(t, ast.Compare) and len(t.ops) == 1 and isinstance(t.left, ast.Call) and isinstance(t.left.func, ast.Name)
+                    and t.left.func.id == "len" and t.left.args and src(t.left.args[0]) == sv and isinstance(t.comparators[0], ast.Constant)):
+                return None
+            c0 = t.comparators[0].value
+            f = {ast.Gt: lambda n: n > c0, ast.GtE: lambda n: n >= c0, ast.Lt: lambda n: n < c0, ast.LtE: lambda n: n <= c0,
+                 ast.Eq: lambda n: n == c0, ast.NotEq: lambda n: n != c0}.get(type(t.ops[0]))
+            if f is None:
+                return None
+            holds = {n for n in (0, 1, 2) if f(n)}
+            return ({0, 1, 2} - holds) if neg else holds
+
+        def lens_at(node):
+            cur_ = {0, 1, 2}
+            for t, holds in path_conditions(node, track_loop):
+                lc = lencase(t)
+                if lc is None:
+                    continue
+                cur_ &= lc if holds else ({0, 1, 2} - lc)
+            return cur_
+        if rem:
+            ctx.check(lens_at(rem[0]) == {2}, "SPLITCASE", f"{FN}: the remainder is taken exactly when split returned two pieces", function=FN,
+                      construct="the remainder piece is read under a condition other than `split returned more than one piece`",
+                      message=f"`{short(rem[0])}` runs for result lengths {sorted(lens_at(rem[0]))} (2 = two or more)", file=fi.file, node=rem[0])
+        for s_ in inner if flagn is not None else []:
+            ctx.check(lens_at(s_) == {2}, "SPLITCASE", f"{FN}: another round is requested exactly when a remainder exists", function=FN,
+                      construct="another round is requested under a condition other than `split returned more than one piece`",
+                      message=f"`{short(s_)}` runs for result lengths {sorted(lens_at(s_))}", file=fi.file, node=s_)
+        for s_ in fresh:
+            ctx.check(lens_at(s_) == {0, 1}, "SPLITCASE", f"{FN}: the empty placeholder replaces exactly the exhausted tracks", function=FN,
+                      construct="the placeholder replaces a track under a condition other than `no remainder`",
+                      message=f"`{short(s_)}` runs for result lengths {sorted(lens_at(s_))}", file=fi.file, node=s_)
+        fills = [c for c in ast.walk(track_loop) if isinstance(c, ast.Call) and call_method(c)[1] == "append" and src(call_method(c)[0]) == sv]
+        ctx.check(len(fills) == 1 and lens_at(fills[0]) == {0} and isinstance(fills[0].args[0], ast.Call) and src(fills[0].args[0].func) == "Sequence"
+                  and not fills[0].args[0].args, "SPLITCASE", f"{FN}: an empty piece is supplied exactly when split returned nothing", function=FN,
+                  construct="the empty piece for an exhausted track is missing or supplied under another condition",
+                  message=f"{[(short(c), sorted(lens_at(c))) for c in fills]}: with nothing supplied piece [0] does not exist", file=fi.file,
+                  node=fills[0] if fills else track_loop)
+        firsts = [s_ for s_ in track_loop.body if isinstance(s_, ast.Assign) and isinstance(s_.value, ast.Subscript) and src(s_.value.value) == sv]
+        ctx.check(len(firsts) == 1 and isinstance(firsts[0].value.slice, ast.Constant) and firsts[0].value.slice.value == 0 and not path_conditions(firsts[0], track_loop),
+                  "SPLITCASE", f"{FN}: the bar is built from piece [0] on every path", function=FN,
+                  construct="the bar is not built from the first piece of the split", message=f"{[short(x) for x in firsts]}", file=fi.file,
+                  node=firsts[0] if firsts else track_loop)
+
+    # --- CONSUME: a signature / key event that was applied is taken off the front of its list, under `found`
+    if clock is not None:
+        for lk in lookups:
+            var = lk.targets[0].id
+            gen = next((g for g in ast.walk(lk.value) if isinstance(g, ast.GeneratorExp)), None)
+            lst = src(gen.generators[0].iter) if gen is not None else None
+            dflt = lk.value.args[1] if len(lk.value.args) > 1 else None
+            ctx.check(gen is not None and isinstance(dflt, ast.Constant) and dflt.value is None and src(gen.elt) == src(gen.generators[0].target), "CONSUME",
+                      f"{FN}: `{var}` is the first pending event at or before the clock, or None", function=FN,
+                      construct="signature look-up is not `first pending event at or before the clock, else None`", message=short(lk.value, 100), file=fi.file, node=lk)
+            uses = [s_ for s_ in loop.body if isinstance(s_, ast.If) and var in {n.id for n in ast.walk(s_.test) if isinstance(n, ast.Name)}]
+            oku = False
+            if len(uses) == 1:
+                t = uses[0].test
+                found = isinstance(t, ast.Compare) and isinstance(t.ops[0], ast.IsNot) and isinstance(t.comparators[0], ast.Constant) and t.comparators[0].value is None \
+                    and src(t.left) == var
+                pops = [c for x in uses[0].body for c in ast.walk(x) if isinstance(c, ast.Call) and call_method(c)[1] == "pop" and src(call_method(c)[0]) == lst]
+                okpop = len(pops) == 1 and len(pops[0].args) == 1 and isinstance(pops[0].args[0], ast.Constant) and pops[0].args[0].value == 0
+                reads = [a for x in uses[0].body for a in ast.walk(x) if isinstance(a, ast.Attribute) and isinstance(a.value, ast.Subscript) and src(a.value.value) == var]
+                okread = bool(reads) and all(isinstance(a.value.slice, ast.Constant) and a.value.slice.value == 1 for a in reads)
+                oku = found and okpop and okread and not uses[0].orelse and uses[0].lineno < length.lineno
+            ctx.check(oku, "CONSUME", f"{FN}: an applied `{var}` is removed from the front of `{lst}` and its event's fields are used", function=FN,
+                      construct="an applied signature/key event is not consumed (or applied when none was found)",
+                      message="without the removal the same event is found again in every later bar and later changes are never applied", file=fi.file,
+                      node=uses[0] if uses else lk)
+            # the time compared is the first component of the (time, message) entry
+            cmpn = next((c for c in ast.walk(lk.value) if isinstance(c, ast.Compare)), None)
+            tside = cmpn.left if cmpn is not None and isinstance(cmpn.left, ast.Subscript) else (cmpn.comparators[0] if cmpn is not None else None)
+            ctx.check(isinstance(tside, ast.Subscript) and isinstance(tside.slice, ast.Constant) and tside.slice.value == 0, "CONSUME",
+                      f"{FN}: the look-up compares the entry's time (component 0)", function=FN, construct="signature look-up does not compare the entry's time",
+                      message=short(cmpn), file=fi.file, node=lk)
+    # default signature list installed iff the meta track has none
+    dl = [s_ for s_ in fi.node.body if isinstance(s_, ast.If) and s_.lineno < loop.lineno and any(isinstance(c, ast.Call) and src(c.func) == "Message" for c in ast.walk(s_))]
+    if dl:
+        t = dl[0].test
+        tgt = dl[0].body[0].targets[0].id if isinstance(dl[0].body[0], ast.Assign) and isinstance(dl[0].body[0].targets[0], ast.Name) else None
+        from .c08 import _nonempty
+        entry = dl[0].body[0].value if tgt else None
+        ok0 = tgt is not None and _nonempty(t, tgt) is False and isinstance(entry, ast.List) and len(entry.elts) == 1 and isinstance(entry.elts[0], ast.Tuple) \
+            and isinstance(entry.elts[0].elts[0], ast.Constant) and entry.elts[0].elts[0].value == 0
+        ctx.check(ok0, "DEFAULT", f"{FN}: the default signature (at tick 0) is installed iff the meta track has no time signature", function=FN,
+                  construct="default signature entry is installed under another condition or not at tick 0", message=short(t), file=fi.file, node=dl[0])
+
     # --- SHORTEN
     from .c06 import filter_rules        # "fragments may only shrink" rests on the do_not_extend filter of quantise_note_lengths
     filter_rules(ctx)
